@@ -5,7 +5,10 @@ per-property instantiations in props/Cxx.py.
 """
 import json
 import re
+import os
 from collections import defaultdict, deque
+
+NO_DESUGAR = bool(os.environ.get("VERIF_NO_DESUGAR"))
 
 # ------------------------------------------------------------------------------------------
 # facts
@@ -28,6 +31,7 @@ class Facts:
         for c in d["consts"]:
             self.consts.setdefault(c["path"], c)
         self.bodies = {}
+        self.capture_names = {b["key"]: [c["name"] for c in b.get("captures", [])] for b in d["bodies"] if b.get("captures")}
         import inline
 
         import thread
@@ -36,9 +40,20 @@ class Facts:
         for a in d["adts"]:
             if a.get("kind") == "Enum" and all(isinstance(v.get("discr"), int) for v in a.get("variants", [])):
                 thread.ADT_DISCR[a["path"]] = [v["discr"] for v in a["variants"]]
+        import desugar
+
+        # order: combinators first, so that an extracted helper written with combinators is inlined in its
+        # match form (one assignment of the return value per arm, each with its own epilogue)
+        self.expanded_closures = desugar.apply(d["bodies"], d["types"]) if not NO_DESUGAR else {}
         self.inlined = inline.apply(d["bodies"])
+        # combinator calls of the caller that consume an inlined helper's closure-free result, and closures of
+        # inlined helpers, are picked up by a second pass
+        if not NO_DESUGAR and self.inlined:
+            self.expanded_closures.update(desugar.apply(d["bodies"], d["types"]))
         self.threaded = {}
         for b in d["bodies"]:
+            if b["key"] in self.expanded_closures:
+                continue
             n = thread.thread_body(b)
             if n:
                 self.threaded[b["path"]] = n
@@ -49,6 +64,9 @@ class Facts:
             cb = by_path.get(callee_path)
             if cb is not None and not str(cb.get("vis", "")).startswith("Public"):
                 self.inlined_helpers.setdefault(cb["key"], []).append(caller_path)
+        # a closure literal expanded at its (only) use is analysed there, like an inlined helper
+        for k, owner in self.expanded_closures.items():
+            self.inlined_helpers.setdefault(k, []).append(owner)
         for b in d["bodies"]:
             if b["key"] in self.inlined_helpers:
                 continue
@@ -791,6 +809,9 @@ class Body:
         idx = None
         if rv.get("kind") == "adt" and name in rv.get("field_names", []):
             idx = rv["field_names"].index(name)
+        elif rv.get("kind") == "closure" and name in self.facts.capture_names.get(rv.get("def"), []):
+            # the environment of a closure literal expanded in place: captured variable by name
+            idx = self.facts.capture_names[rv["def"]].index(name)
         elif name.isdigit() and int(name) < len(rv["fields"]):
             idx = int(name)
         if idx is None or idx >= len(rv["fields"]):
